@@ -197,3 +197,42 @@ def wf_py(apath):
         else:
             return f"foreign action {a[1]} at {i}"
     return None
+
+
+def traced_corpus(ctx, nprog, p_err=0.1):
+    """generated kernels x argument tuples that trace successfully -> [(src, args, actions)]"""
+    from gen import tweezer_prog
+    S = tweezer_prog.harness_spec()
+    out = []
+    for i in range(nprog):
+        prog = tweezer_prog.gen_prog(ctx.rng, p_err=p_err)
+        try:
+            m = kernels.define(prog.src)["main"]
+        except Exception:
+            continue
+        for args in prog.arg_tuples:
+            st, r = run_impl(m, args, S)
+            if st == "ok":
+                out.append((prog.src, args, r))
+    return out
+
+
+def random_path(rng, max_len=8):
+    """a path built directly from the action classes (any shape, also ill-formed ones)"""
+    from kirin.dialects import ilist
+    from bloqade.geometry.dialects.grid import Grid
+    from bloqade.shuttle.codegen import taskgen as T
+    info = action_class_info()
+    classes = list(info)
+    grids = [Grid.from_positions([float(i), float(i) + 1.0], [0.0]) for i in range(4)] + [Grid.from_positions([0.0], [0.0, 2.0])]
+    sl = [slice(None), slice(0, 2), slice(0, 2, 1), slice(1, None, 2)]
+    li = [ilist.IList([0]), ilist.IList([0, 1]), ilist.IList(range(2)), ilist.IList([])]
+    p = []
+    for _ in range(rng.randint(0, max_len)):
+        if rng.random() < 0.5:
+            p.append(T.WayPointsAction([rng.choice(grids) for _ in range(rng.randint(0, 5))]))
+        else:
+            c = rng.choice(classes)
+            _, fx, fy = info[c]
+            p.append(c(rng.choice(sl if fx == "S" else li), rng.choice(sl if fy == "S" else li)))
+    return p
